@@ -227,6 +227,9 @@ func (key *PublicKey) ECDSA() (*ecdsa.PublicKey, error) {
 		if key.KeyBlock.KeyFormatType == KeyFormatTypeTransparentECPublicKey {
 			tkey = mat.TransparentECPublicKey
 		}
+		if tkey == nil {
+			return nil, errors.New("Empty key material")
+		}
 		var curve elliptic.Curve
 		switch tkey.RecommendedCurve {
 		case RecommendedCurveP_224:
